@@ -202,6 +202,9 @@ func (e *env) store(doc *sbom.Document, noClobber bool, via string) (err error, 
 			err = w.StoreWithOptions(doc, &writer.Options{StoreOptions: &storage.StoreOptions{NoClobber: noClobber, BackendOptions: map[string]string{"k": "v"}}})
 		case via == "fsnil" && !noClobber:
 			err = e.fs.Store(doc, nil) // nil options are documented as supported
+		case via == "fsnew": // another FileSystem value on the same directory (another handle, another process)
+			other := &storage.FileSystem{Options: storage.FileSystemOptions{Path: e.fs.Options.Path}}
+			err = other.Store(doc, &storage.StoreOptions{NoClobber: noClobber})
 		default:
 			err = e.fs.Store(doc, &storage.StoreOptions{NoClobber: noClobber})
 		}
@@ -214,6 +217,9 @@ func (e *env) retrieve(id string, via string) (doc *sbom.Document, err error, ab
 		if via == "rw" {
 			r := reader.New(reader.WithStoreRetriever(e.fs))
 			doc, err = r.Retrieve(id)
+		} else if via == "fsnew" {
+			other := &storage.FileSystem{Options: storage.FileSystemOptions{Path: e.fs.Options.Path}}
+			doc, err = other.Retrieve(id, &storage.RetrieveOptions{})
 		} else {
 			doc, err = e.fs.Retrieve(id, &storage.RetrieveOptions{})
 		}
